@@ -89,6 +89,11 @@ func Res(err error) string {
 	return "other:" + err.Error()
 }
 
+// injected is the error a call returns when the scheduler asked for a fault: the call is NOT performed.
+func injected(op, path string) error {
+	return &realos.PathError{Op: op, Path: path, Err: syscall.EIO}
+}
+
 // File wraps *os.File. Writes to anything that is not a *.reftmp temporary are
 // gated (they are visible to other processes, e.g. the staging of the next
 // tables.list inside tables.list.lock); reads through descriptors are not.
@@ -139,7 +144,10 @@ func (f *File) Write(b []byte) (int, error) {
 		f.nw += len(b)
 		return f.f.Write(b)
 	}
-	sched.Gate("write", f.path, "")
+	if sched.Gate("write", f.path, "") {
+		sched.Done("write", f.path, "", "EIO", sched.Event{"fd": f.id, "names": names(f.buf), "n": 0, "injected": true})
+		return 0, injected("write", f.path)
+	}
 	n, err := f.f.Write(b)
 	f.nw += n
 	f.buf = append(f.buf, b[:n]...)
@@ -236,7 +244,10 @@ func OpenFile(name string, flag int, perm FileMode) (*File, error) {
 	default:
 		op = "open"
 	}
-	sched.Gate(op, name, "")
+	if sched.Gate(op, name, "") {
+		sched.Done(op, name, "", "EIO", sched.Event{"fd": 0, "injected": true})
+		return nil, injected("open", name)
+	}
 	f, err := realos.OpenFile(name, flag, perm)
 	w := wrap(f, name)
 	if err != nil {
@@ -260,7 +271,10 @@ func Create(name string) (*File, error) {
 }
 
 func CreateTemp(dir, pattern string) (*File, error) {
-	sched.Gate("tempfile", "", "")
+	if sched.Gate("tempfile", "", "") {
+		sched.Done("tempfile", dir+"/"+pattern, "", "EIO", sched.Event{"fd": 0, "injected": true})
+		return nil, injected("open", dir+"/"+pattern)
+	}
 	f, err := realos.CreateTemp(dir, pattern)
 	p := dir + "/" + pattern
 	if err == nil {
@@ -276,7 +290,10 @@ func CreateTemp(dir, pattern string) (*File, error) {
 }
 
 func Rename(oldpath, newpath string) error {
-	sched.Gate("rename", oldpath, newpath)
+	if sched.Gate("rename", oldpath, newpath) {
+		sched.Done("rename", oldpath, newpath, "EIO", sched.Event{"injected": true})
+		return &realos.LinkError{Op: "rename", Old: oldpath, New: newpath, Err: syscall.EIO}
+	}
 	err := realos.Rename(oldpath, newpath)
 	sched.Done("rename", oldpath, newpath, Res(err), nil)
 	return err
@@ -318,7 +335,10 @@ func Truncate(name string, size int64) error {
 }
 
 func ReadFile(name string) ([]byte, error) {
-	sched.Gate("readfile", name, "")
+	if sched.Gate("readfile", name, "") {
+		sched.Done("readfile", name, "", "EIO", sched.Event{"names": []string{}, "injected": true})
+		return nil, injected("read", name)
+	}
 	b, err := realos.ReadFile(name)
 	sched.Done("readfile", name, "", Res(err), sched.Event{"names": names(b)})
 	return b, err
@@ -339,7 +359,10 @@ func WriteFile(name string, data []byte, perm FileMode) error {
 }
 
 func ReadDir(name string) ([]DirEntry, error) {
-	sched.Gate("readdir", name, "")
+	if sched.Gate("readdir", name, "") {
+		sched.Done("readdir", name, "", "EIO", sched.Event{"n": 0, "injected": true})
+		return nil, injected("readdir", name)
+	}
 	es, err := realos.ReadDir(name)
 	sched.Done("readdir", name, "", Res(err), sched.Event{"n": len(es)})
 	return es, err
